@@ -529,7 +529,7 @@ Proof.
       destruct (strtol_ok str l (e + 1) 10 Hc) as [last [e2 [He2 Hel2]]]; [lia|]. rewrite He2. cbn [bind].
       destruct (cstring_rdr str l e2 Hc) as [c2 [Hc2 _]]; [lia|]. rewrite Hc2. cbn [bind].
       destruct (negb (c2 =? 0)); [eexists; split; [reflexivity|exact Hd]|].
-      destruct (e2 =? e + 1); [|destruct (last <? first)%Z]; eexists; (split; [reflexivity|exact Hd]).
+      destruct (e2 =? e + 1); [|destruct (last <? first)%Z; [|destruct (LONG_MAXZ <? last - first + 1)%Z]]; eexists; (split; [reflexivity|exact Hd]).
     + destruct (N.eqb_spec ce C_COLON) as [Ec|_].
       * assert (e < l). { destruct (N.eq_dec e l) as [->|]; [|lia]. specialize (Hz eq_refl). subst ce. discriminate. }
         destruct (strtol_ok str l (e + 1) 10 Hc) as [am [e2 [He2 Hel2]]]; [lia|]. rewrite He2. cbn [bind].
